@@ -32,6 +32,7 @@ Theorem C06_complete :
   let st3 := final C (snd (step C st1 (Call k c vld))) h2 in
   fst (step C st3 (Call k' c' true)) = OSkip \/ exists v', fst (step C st3 (Call k' c' true)) = OHit v'.
 Proof. intros ? ? ? ? ? ? ? C Hd Hs. apply complete_uniform; assumption. Qed.
+Print Assumptions C06_complete.
 
 (* check_call_in_cache, asked in any state whatsoever, says True exactly when a call in that
    state would be a Hit *)
@@ -41,6 +42,7 @@ Theorem C06_check_same_state :
          (st : state call digest value src) k c vld,
   fst (step C st (Check k c vld)) = OCheck true <-> exists v, fst (step C st (Call k c vld)) = OHit v.
 Proof. intros ? ? ? ? ? ? ? C. exact (check_same_state C). Qed.
+Print Assumptions C06_check_same_state.
 
 (* ... and, after any history, its answer is the fate of the NEXT identical call (the check itself
    may write func_code.py, wipe a stale cache or delete an invalidated entry):
@@ -56,6 +58,7 @@ Theorem C06_check_next :
   (b = false -> (exists v, fst (step C st1 (Call k c vld)) = OMiss v) \/
                 fst (step C st1 (Call k c vld)) = ORaise TypeError).
 Proof. intros ? ? ? ? ? ? ? C Hd Hs. apply check_next; assumption. Qed.
+Print Assumptions C06_check_next.
 
 (* every call the plain function accepts is accepted by the wrapper, in every state *)
 Theorem C06_accepts :
@@ -66,6 +69,7 @@ Theorem C06_accepts :
   fst (step C st (Call k c vld)) = OSkip \/
   exists v, fst (step C st (Call k c vld)) = OHit v \/ fst (step C st (Call k c vld)) = OMiss v.
 Proof. intros ? ? ? ? ? ? ? C. exact (call_accepts C). Qed.
+Print Assumptions C06_accepts.
 
 (* both interface hypotheses are necessary *)
 Theorem C06_key_complete_necessary :
@@ -77,6 +81,7 @@ Theorem C06_key_complete_necessary :
   bind_spec C c1 = Some b1 -> bind_spec C c2 = Some b2 ->
   nth_error (outcomes C (two_calls c1 c2)) 3 = Some (OMiss (f C (code C 0) b2)).
 Proof. intros ? ? ? ? ? ? ? C Hd Hs. apply key_complete_necessary; assumption. Qed.
+Print Assumptions C06_key_complete_necessary.
 
 Theorem C06_accepts_necessary :
   forall (call key_input digest binding kbinding value src : Type)
@@ -84,6 +89,7 @@ Theorem C06_accepts_necessary :
   canonicalise C c = Raise e ->
   outcomes C [Define 0; Wrap 0; Call 0 c true] = [ODone; ODone; ORaise e].
 Proof. intros ? ? ? ? ? ? ? C. exact (rejected_call_outcome C). Qed.
+Print Assumptions C06_accepts_necessary.
 
 (* Full statements without the interface hypotheses are FALSE of the unchanged tree:
    F2  g(a=1, b=2, *, c): g(5, c=0) then g(5, 2, c=0) bind alike but get two keys => recomputed;
@@ -97,6 +103,7 @@ Proof.
   intros KC. specialize (KC f2_c1 f2_c3 0 1 (0, 0) (0, 0) eq_refl eq_refl eq_refl eq_refl eq_refl).
   discriminate.
 Qed.
+Print Assumptions C06_complete_refuted_F2.
 
 Theorem C06_accepts_refuted_F3 :
   bind_spec one_cfg f3_c = Some (0, 0) /\
@@ -106,6 +113,7 @@ Proof.
   split; [reflexivity|]. split; [vm_compute; reflexivity|].
   intros A. destruct (A f3_c (0, 0) eq_refl) as [ki H]. discriminate.
 Qed.
+Print Assumptions C06_accepts_refuted_F3.
 
 (* non-vacuity: on ideal_cfg all hypotheses hold; two calls that differ only in an ignored
    parameter, with a fresh process, a re-import and other traffic in between *)
@@ -121,3 +129,4 @@ Proof.
   split; [intros c b H; eexists; reflexivity|]. split; [intros k k'; reflexivity|].
   split; vm_compute; reflexivity.
 Qed.
+Print Assumptions C06_hypotheses_satisfiable.
